@@ -192,6 +192,7 @@ class World:
     def __init__(self, prog: Program, cfg: Config, decisions=()):
         self.prog = prog
         self.cfg = cfg
+        self.impl = cfg.impl
         self.env = E.Env({"SELF": cfg.n1})
         self.decisions = list(decisions)
         self.trace: list = []
@@ -206,9 +207,15 @@ class World:
         return TV(E.S(f"{role}.{name}"), 0, fresh=False, origin=f"parameter {name} of {role}")
 
     def _link(self, role, cls_fq, n1=False):
+        """n1: True -> one segment, False -> abstract N >= 2, int -> that many segments"""
         o = Obj(cls_fq, role, kind="link")
         o.attrs["name"] = role
-        o.attrs["N"] = 1 if n1 else AbsInt("N", link=role)
+        if n1 is True:
+            o.attrs["N"] = 1
+        elif n1 is False or n1 is None:
+            o.attrs["N"] = AbsInt("N", link=role)
+        else:
+            o.attrs["N"] = int(n1)
         for p in ("lam", "L", "rho_max", "rho_crit", "v_free", "a", "turnrate"):
             o.attrs[p] = self._param(role, p)
         for g in ("states", "next_states", "actions", "disturbances"):
@@ -510,7 +517,7 @@ class World:
         if k.name in ("numpy.ndarray",):
             return isinstance(o, TV) and o.rank == 1
         if k.name in ("casadi.SX", "casadi.MX", "casadi.DM"):
-            return isinstance(o, TV) and self.cfg.impl == "casadi"
+            return isinstance(o, TV) and self.impl == "casadi"
         return False
 
     def call_ext(self, it, name, args, kwargs, node):
@@ -552,7 +559,8 @@ class World:
             return TV(E.V(var, role), 1, False, f"state {var} of {role}")
         if isinstance(n, AbsInt) and n.what.startswith("len("):
             return TV(("w", var, role, "vsl"), 1, False, f"variable {var} of {role}")
-        if n == 1 and o.kind == "link" and o.attrs.get("N") == 1:
+        if isinstance(n, int) and not isinstance(n, bool) and o.kind == "link" and o.attrs.get("N") == n \
+                and var in ("rho", "v"):
             return TV(E.V(var, role), 1, False, f"state {var} of {role}")
         if n == 1:
             return TV(E.S(f"{role}.{var}"), 1, False, f"variable {var} of {role}")
